@@ -3,7 +3,7 @@
    the synthetic SETUP_EXCEPT_311 keys (key_of start - 1) are 0 mod 4 and the POP_BLOCK keys (last key + 1) are
    2 mod 4: the three kinds can never collide.  (With the synthetic ops at raw offset +-1 this argument is gone.) *)
 From Coq Require Import List NArith ZArith Arith Bool Lia Sorted ZifyNat ZifyBool ZifyN.
-From PV Require Import Generated.C16_OpcodeFlags Blocks.Model Blocks.Proofs.
+From PV Require Import Generated.C16_OpcodeFlags Blocks.Model.
 Import ListNotations.
 Ltac Zify.zify_post_hook ::= Z.div_mod_to_equations.
 Local Open Scope N_scope.
@@ -168,6 +168,15 @@ Proof.
   rewrite E0, E2. apply IH; auto.
 Qed.
 
+Lemma brk_open : forall k t, k mod 4 = 0 -> brk (k :: t) false = brk t true.
+Proof. intros k t H. cbn [brk]. apply N.eqb_eq in H. rewrite H. reflexivity. Qed.
+
+Lemma brk_close : forall k t, k mod 4 = 2 -> brk (k :: t) true = brk t false.
+Proof.
+  intros k t H. cbn [brk]. assert (E0 : (k mod 4 =? 0) = false) by (apply N.eqb_neq; lia).
+  apply N.eqb_eq in H. rewrite E0, H. reflexivity.
+Qed.
+
 Lemma brk_app_closed : forall l1 l2, brk l1 false = true -> brk (l1 ++ l2) false = brk l2 false.
 Proof.
   assert (G : forall l1 l2 o, brk l1 o = true -> brk (l1 ++ l2) o = brk l2 false).
@@ -179,4 +188,373 @@ Proof.
         * apply andb_prop in H. destruct H as [H1 H2]. rewrite H1. simpl. apply IH; auto.
         * apply IH; auto. }
   intros. apply G; auto.
+Qed.
+
+(* ================================================================================================ *)
+(* the invariant of the loop of _add_setup_except: the table is A ++ R, A = the part already finished (with its
+   synthetic ops), R = a suffix of the original table *)
+
+Definition is_last (items : list xitem) (e : exc_entry) (k : N) : Prop :=
+  (exists it, In it items /\ x_key it = k) /\ k <= key_of (e_end e) /\
+  forall it, In it items -> x_key it <= key_of (e_end e) -> x_key it <= k.
+
+Definition entry_ok (items A : list xitem) (e : exc_entry) : Prop :=
+  (exists l1 s l2,
+     A = l1 ++ mkX (key_of (e_start e) - 1) op_SETUP_EXCEPT_311 (x_line s) (Some (key_of (e_target e))) :: s :: l2 /\
+     In s items /\ x_key s = key_of (e_start e)) /\
+  (exists l1 lst l2,
+     A = l1 ++ lst :: mkX (x_key lst + 1) op_POP_BLOCK (x_line lst) None :: l2 /\
+     In lst items /\ is_last items e (x_key lst)).
+
+Lemma entry_ok_app : forall items A X e, entry_ok items A e -> entry_ok items (A ++ X) e.
+Proof.
+  intros items A X e [[l1 [s [l2 [E H]]]] [m1 [lst [m2 [E' H']]]]]. split.
+  - exists l1, s, (l2 ++ X). split; auto. rewrite E. rewrite <- app_assoc. reflexivity.
+  - exists m1, lst, (m2 ++ X). split; auto. rewrite E'. rewrite <- app_assoc. reflexivity.
+Qed.
+
+Definition keven (it : xitem) : bool := negb (kodd it).
+
+Record inv (items A R : list xitem) (b : N) (done : list exc_entry) : Prop := {
+  i_real : items = filter kodd A ++ R;
+  i_sorted : sorted (A ++ R);
+  i_bound : forall h, In h A -> x_key h < 2 * b \/ (x_key h = 2 * b /\ x_key h mod 4 = 2);
+  i_brk : brk (keys A) false = true;
+  i_done : forall e, In e done -> entry_ok items A e;
+  i_count : length (filter keven A) = (2 * length done)%nat
+}.
+
+Lemma kodd_real : forall it, real_item it -> kodd it = true.
+Proof.
+  intros it H. unfold kodd, real_item in *. apply N.odd_spec. exists (x_key it / 2). lia.
+Qed.
+
+Lemma kodd_even_key : forall it, x_key it mod 2 = 0 -> kodd it = false.
+Proof.
+  intros it H. unfold kodd. destruct (N.odd (x_key it)) eqn:E; auto.
+  apply N.odd_spec in E. destruct E as [m E]. lia.
+Qed.
+
+Lemma filter_kodd_real : forall l, Forall real_item l -> filter kodd l = l.
+Proof.
+  induction l as [|h t IH]; intros H; simpl; auto. inversion H; subst.
+  rewrite kodd_real by auto. f_equal. auto.
+Qed.
+
+Lemma filter_keven_real : forall l, Forall real_item l -> filter keven l = [].
+Proof.
+  induction l as [|h t IH]; intros H; simpl; auto. inversion H; subst. unfold keven at 1.
+  rewrite kodd_real by auto. simpl. auto.
+Qed.
+
+Lemma Forall_sub : forall (P : xitem -> Prop) l l', Forall P l -> (forall x, In x l' -> In x l) -> Forall P l'.
+Proof. intros P l l' H Hs. apply Forall_forall. intros x Hx. rewrite Forall_forall in H. auto. Qed.
+
+Lemma inv_weaken : forall items A R b b' done, inv items A R b done -> b <= b' -> inv items A R b' done.
+Proof.
+  intros items A R b b' done [H1 H2 H3 H4 H5 H6] Hb. constructor; auto.
+  intros h Hh. destruct (H3 h Hh) as [H|[H H']].
+  - left. lia.
+  - destruct (N.eq_dec b b') as [E|E]; [subst; right; auto | left; lia].
+Qed.
+
+Lemma sorted_insert : forall L1 L2 it, sorted (L1 ++ L2) -> lt_all L1 (x_key it) ->
+  (forall h, In h L2 -> x_key it < x_key h) -> sorted (L1 ++ it :: L2).
+Proof.
+  intros L1 L2 it Hs H1 H2. destruct (sorted_app_inv _ _ Hs) as [A [B C]].
+  apply sorted_app; auto.
+  - apply sorted_cons; auto.
+  - intros a b Ha [Hb|Hb]; [subst; apply H1; auto | apply C; auto].
+Qed.
+
+Lemma items_in_table : forall items A R x, items = filter kodd A ++ R -> In x items -> In x (A ++ R).
+Proof.
+  intros items A R x E H. rewrite E in H. apply in_app_or in H. apply in_or_app. destruct H as [H|H]; auto.
+  left. apply filter_In in H. tauto.
+Qed.
+
+Lemma head_of_split : forall (s : xitem) Rb Rc lst Rd, s :: Rb = Rc ++ lst :: Rd -> exists Y, Rc ++ [lst] = s :: Y.
+Proof.
+  intros s Rb Rc lst Rd E. destruct Rc as [|c Rc]; simpl in *; inversion E; subst; eauto.
+Qed.
+
+Lemma add_exception_block_step : forall items A R b done e s t,
+  Forall real_item items -> inv items A R b done ->
+  b <= e_start e -> e_start e <= e_end e ->
+  In s items -> x_key s = key_of (e_start e) -> In t items -> x_key t = key_of (e_target e) ->
+  exists A' R', add_exception_block (A ++ R) e = Ok (A' ++ R') /\ inv items A' R' (e_end e + 1) (done ++ [e]).
+Proof.
+  intros items A R b done e s t Hreal [I1 I2 I3 I4 I5 I6] Hb Hse Hs Hks Ht Hkt.
+  assert (RsubI : forall x, In x R -> In x items) by (intros x Hx; rewrite I1; apply in_or_app; auto).
+  assert (RealR : Forall real_item R) by (eapply Forall_sub; eauto).
+  assert (Rs : real_item s) by (rewrite Forall_forall in Hreal; auto).
+  pose proof Rs as Rs'. unfold real_item in Rs'. rewrite Hks in Rs'. unfold key_of in *.
+  (* s lies in R *)
+  assert (HsR : In s R).
+  { rewrite I1 in Hs. apply in_app_or in Hs. destruct Hs as [Hs|Hs]; auto. exfalso.
+    apply filter_In in Hs. destruct Hs as [Hs _]. destruct (I3 s Hs) as [F|[F _]]; lia. }
+  destruct (sorted_app_inv _ _ I2) as [SA [SR CAR]].
+  destruct (sorted_split R s SR HsR) as [Ra [Rb [ER [LRa GRb]]]].
+  assert (RealRa : Forall real_item Ra).
+  { eapply Forall_sub; [exact RealR|]. intros x Hx. rewrite ER. apply in_or_app. auto. }
+  assert (RealRb : Forall real_item (s :: Rb)).
+  { eapply Forall_sub; [exact RealR|]. intros x Hx. rewrite ER. apply in_or_app. right. exact Hx. }
+  set (S := mkX (2 * e_start e + 1 - 1) op_SETUP_EXCEPT_311 (x_line s) (Some (2 * e_target e + 1))).
+  assert (KS : x_key S = 2 * e_start e) by (simpl; lia).
+  (* the lookups of the start op and the insertion of the SETUP *)
+  assert (F1 : find_x (2 * e_start e + 1) (A ++ R) = Some s).
+  { rewrite <- Hks. apply find_x_In; auto. eapply items_in_table; eauto. }
+  assert (LT1 : lt_all (A ++ Ra) (x_key S)).
+  { intros h Hh. rewrite KS. apply in_app_or in Hh. destruct Hh as [Hh|Hh].
+    - destruct (I3 h Hh) as [F|[F F']]; lia.
+    - specialize (LRa h Hh). rewrite Forall_forall in RealRa. specialize (RealRa h Hh).
+      unfold real_item in RealRa. lia. }
+  assert (GT1 : forall h, In h (s :: Rb) -> x_key S < x_key h).
+  { intros h [Hh|Hh]; rewrite KS; [subst; lia | specialize (GRb h Hh); lia]. }
+  assert (SsRb : sorted (s :: Rb)).
+  { rewrite ER in SR. apply sorted_app_inv in SR. tauto. }
+  assert (P1 : put_x S (A ++ R) = (A ++ Ra) ++ S :: s :: Rb).
+  { rewrite ER. rewrite app_assoc. apply put_x_mid; auto. }
+  set (T1 := (A ++ Ra) ++ S :: s :: Rb) in *.
+  assert (ST1 : sorted T1).
+  { unfold T1. apply sorted_insert; auto. rewrite <- app_assoc, <- ER. exact I2. }
+  assert (IT1 : forall x, In x items -> In x T1).
+  { intros x Hx. apply (items_in_table _ _ _ _ I1) in Hx. rewrite ER in Hx. unfold T1.
+    apply in_app_or in Hx. destruct Hx as [Hx|Hx].
+    - apply in_or_app. left. apply in_or_app. auto.
+    - apply in_app_or in Hx. destruct Hx as [Hx|Hx].
+      + apply in_or_app. left. apply in_or_app. auto.
+      + apply in_or_app. right. right. exact Hx. }
+  assert (F2 : find_x (2 * e_target e + 1) T1 = Some t).
+  { rewrite <- Hkt. apply find_x_In; auto. }
+  (* elements of T1 at or above the key of s are in s :: Rb *)
+  assert (UP : forall x, In x T1 -> x_key s <= x_key x -> In x (s :: Rb)).
+  { intros x Hx Hk. unfold T1 in Hx. apply in_app_or in Hx. destruct Hx as [Hx|[Hx|Hx]]; auto.
+    - specialize (LT1 x Hx). lia.
+    - subst x. lia. }
+  (* the op the POP_BLOCK follows *)
+  assert (LST : exists lst, In lst (s :: Rb) /\ x_key lst <= 2 * e_end e + 1 /\
+                 (forall it, In it T1 -> x_key it <= 2 * e_end e + 1 -> x_key it <= x_key lst) /\
+                 match find_x (2 * e_end e + 1) T1 with
+                 | Some _ => Some (2 * e_end e + 1)
+                 | None => max_key_below (2 * e_end e + 1) T1
+                 end = Some (x_key lst)).
+  { destruct (find_x (2 * e_end e + 1) T1) as [x|] eqn:E.
+    - apply find_x_Some in E. destruct E as [Hx Kx]. exists x. rewrite Kx. repeat split; auto; try lia.
+      apply UP; auto. lia.
+    - pose proof (max_key_below_spec (2 * e_end e + 1) T1) as M.
+      pose proof (find_x_None _ _ E) as NK.
+      assert (HsT : In s T1) by (apply IT1; auto).
+      destruct (max_key_below (2 * e_end e + 1) T1) as [m|].
+      + destruct M as [[x [Hx Kx]] [Mlt Mmax]]. exists x. rewrite Kx.
+        assert (x_key s <= m) by (apply Mmax; auto; specialize (NK s HsT); lia).
+        repeat split; auto; try lia.
+        * apply UP; auto. lia.
+        * intros it Hit Hk. apply Mmax; auto. specialize (NK it Hit). lia.
+      + exfalso. specialize (M s HsT). specialize (NK s HsT). lia. }
+  destruct LST as [lst [HlR [Klst [Mlst Eend]]]].
+  assert (F3 : find_x (x_key lst) T1 = Some lst).
+  { apply find_x_In; auto. unfold T1. apply in_or_app. right. right. exact HlR. }
+  destruct (sorted_split (s :: Rb) lst SsRb HlR) as [Rc [Rd [ERc [LRc GRd]]]].
+  assert (Rl : real_item lst) by (rewrite Forall_forall in RealRb; auto).
+  set (P := mkX (x_key lst + 1) op_POP_BLOCK (x_line lst) None).
+  assert (ET1 : T1 = ((A ++ Ra) ++ S :: Rc ++ [lst]) ++ Rd).
+  { unfold T1. rewrite ERc. rewrite <- !app_assoc. simpl. rewrite <- !app_assoc. reflexivity. }
+  assert (RealRd : Forall real_item Rd).
+  { eapply Forall_sub; [exact RealRb|]. intros x Hx. rewrite ERc. apply in_or_app. right. right. exact Hx. }
+  assert (LT2 : lt_all ((A ++ Ra) ++ S :: Rc ++ [lst]) (x_key P)).
+  { intros h Hh. simpl. rewrite ET1 in ST1.
+    assert (Hle : x_key h <= x_key lst).
+    { apply in_app_or in Hh. destruct Hh as [Hh|[Hh|Hh]].
+      - specialize (LT1 h Hh). specialize (GT1 lst HlR). lia.
+      - subst h. specialize (GT1 lst HlR). lia.
+      - apply in_app_or in Hh. destruct Hh as [Hh|[Hh|[]]]; [specialize (LRc h Hh); lia | subst; lia]. }
+    lia. }
+  assert (GT2 : forall h, In h Rd -> x_key P < x_key h).
+  { intros h Hh. simpl. specialize (GRd h Hh). rewrite Forall_forall in RealRd. specialize (RealRd h Hh).
+    unfold real_item in *. lia. }
+  assert (SRd : sorted Rd).
+  { rewrite ERc in SsRb. apply sorted_app_inv in SsRb. destruct SsRb as [_ [X _]]. apply sorted_cons_inv in X. tauto. }
+  assert (P2 : put_x P T1 = ((A ++ Ra) ++ S :: Rc ++ [lst]) ++ P :: Rd).
+  { rewrite ET1. apply put_x_mid; auto. }
+  exists (((A ++ Ra) ++ S :: Rc ++ [lst]) ++ [P]), Rd. split.
+  - unfold add_exception_block, key_of. rewrite F1. fold S. rewrite P1. fold T1. rewrite F2.
+    rewrite Eend. rewrite F3. fold P. rewrite P2.
+    rewrite <- (app_assoc ((A ++ Ra) ++ S :: Rc ++ [lst]) [P] Rd). reflexivity.
+  - assert (KoS : kodd S = false) by (apply kodd_even_key; rewrite KS; lia).
+    assert (KoP : kodd P = false) by (apply kodd_even_key; simpl; unfold real_item in Rl; lia).
+    assert (RealRc : Forall real_item (Rc ++ [lst])).
+    { eapply Forall_sub; [exact RealRb|]. intros x Hx. rewrite ERc. apply in_app_or in Hx.
+      apply in_or_app. destruct Hx as [Hx|[Hx|[]]]; [left; auto | right; left; auto]. }
+    constructor.
+    + rewrite !filter_app. simpl. rewrite KoS, KoP. simpl. rewrite app_nil_r.
+      rewrite (filter_kodd_real Ra), (filter_kodd_real (Rc ++ [lst])) by auto.
+      rewrite I1, ER, ERc. rewrite <- !app_assoc. reflexivity.
+    + rewrite <- app_assoc. simpl. apply sorted_insert; auto. rewrite <- ET1. exact ST1.
+    + intros h Hh. apply in_app_or in Hh. destruct Hh as [Hh|[Hh|[]]].
+      * specialize (LT2 h Hh). simpl in LT2.
+        assert (x_key h <= x_key lst) by lia. left.
+        destruct (N.eq_dec (x_key h) (x_key lst)) as [E|E]; [|lia].
+        unfold real_item in Rl. lia.
+      * subst h. change (x_key P) with (x_key lst + 1). unfold real_item in Rl.
+        destruct (N.eq_dec (x_key lst + 1) (2 * (e_end e + 1))); [right; split; lia | left; lia].
+    + assert (EK : keys (((A ++ Ra) ++ S :: Rc ++ [lst]) ++ [P]) =
+                   keys A ++ keys Ra ++ x_key S :: keys (Rc ++ [lst]) ++ [x_key P]).
+      { unfold keys. rewrite !map_app. cbn [map]. rewrite !map_app. cbn [map]. rewrite <- !app_assoc.
+        cbn [app]. rewrite <- ?app_assoc. reflexivity. }
+      rewrite EK. rewrite brk_app_closed by exact I4. rewrite brk_app_real by exact RealRa.
+      rewrite brk_open by (rewrite KS; lia). rewrite brk_app_real by exact RealRc.
+      unfold real_item in Rl. rewrite brk_close by (change (x_key P) with (x_key lst + 1); lia). reflexivity.
+    + intros e' He'. apply in_app_or in He'. destruct He' as [He'|[He'|[]]].
+      * replace (((A ++ Ra) ++ S :: Rc ++ [lst]) ++ [P]) with (A ++ (Ra ++ S :: Rc ++ [lst]) ++ [P])
+          by (rewrite <- !app_assoc; reflexivity).
+        apply entry_ok_app. auto.
+      * subst e'. destruct (head_of_split _ _ _ _ _ ERc) as [Y EY]. split.
+        -- exists (A ++ Ra), s, (Y ++ [P]). unfold key_of. fold S. split; [|split; auto].
+           rewrite EY. rewrite <- !app_assoc. reflexivity.
+        -- exists ((A ++ Ra) ++ S :: Rc), lst, []. fold P. split; [|split].
+           ++ rewrite <- !app_assoc. simpl. rewrite <- !app_assoc. reflexivity.
+           ++ apply RsubI. rewrite ER. apply in_or_app. right. exact HlR.
+           ++ unfold is_last, key_of. split; [|split].
+              ** exists lst. split; auto. apply RsubI. rewrite ER. apply in_or_app. right. exact HlR.
+              ** exact Klst.
+              ** intros it Hit Hk. apply Mlst; auto.
+    + assert (KeS : keven S = true) by (unfold keven; rewrite KoS; reflexivity).
+      assert (KeP : keven P = true) by (unfold keven; rewrite KoP; reflexivity).
+      rewrite (filter_app keven ((A ++ Ra) ++ S :: Rc ++ [lst]) [P]).
+      rewrite (filter_app keven (A ++ Ra) (S :: Rc ++ [lst])).
+      rewrite (filter_app keven A Ra).
+      cbn [filter]. rewrite KeS, KeP.
+      rewrite (filter_keven_real Ra), (filter_keven_real (Rc ++ [lst])) by auto.
+      rewrite !app_length. cbn [length]. rewrite I6. lia.
+Qed.
+
+(* ================================================================================================ *)
+(* the loop *)
+
+Definition entry_keys_ok (items : list xitem) (e : exc_entry) : Prop :=
+  (exists s, In s items /\ x_key s = key_of (e_start e)) /\
+  (exists t, In t items /\ x_key t = key_of (e_target e)).
+
+Lemma loop_inv : forall items, sorted items -> Forall real_item items ->
+  forall entries seen A R b done,
+  inv items A R b done -> bounded_fromb b entries = true ->
+  (forall e, In e entries -> entry_keys_ok items e) ->
+  exists A' R' b', add_setup_except_loop entries seen (A ++ R) = Ok (A' ++ R') /\
+                   inv items A' R' b' (done ++ kept_loop entries seen items).
+Proof.
+  intros items Hsorted Hreal. induction entries as [|e rest IH]; intros seen A R b done I Hb Hk.
+  - exists A, R, b. simpl. rewrite app_nil_r. auto.
+  - simpl in Hb. apply andb_prop in Hb. destruct Hb as [Hb Hb3]. apply andb_prop in Hb. destruct Hb as [Hb1 Hb2].
+    apply N.leb_le in Hb1, Hb2.
+    destruct (Hk e (or_introl eq_refl)) as [[s [Hs Ks]] [t [Ht Kt]]].
+    assert (Hk' : forall e', In e' rest -> entry_keys_ok items e') by (intros; apply Hk; right; auto).
+    pose proof (i_real _ _ _ _ _ I) as I1. pose proof (i_sorted _ _ _ _ _ I) as I2.
+    assert (Ft : find_x (key_of (e_target e)) (A ++ R) = Some t).
+    { rewrite <- Kt. apply find_x_In; auto. eapply items_in_table; eauto. }
+    assert (Fs : find_x (key_of (e_start e)) (A ++ R) = Some s).
+    { rewrite <- Ks. apply find_x_In; auto. eapply items_in_table; eauto. }
+    assert (Ft' : find_x (key_of (e_target e)) items = Some t) by (rewrite <- Kt; apply find_x_In; auto).
+    assert (Fs' : find_x (key_of (e_start e)) items = Some s) by (rewrite <- Ks; apply find_x_In; auto).
+    cbn [add_setup_except_loop kept_loop]. rewrite Ft, Fs, Ft', Fs'.
+    assert (Iw : inv items A R (e_end e + 1) done) by (eapply inv_weaken; eauto; lia).
+    destruct (memN (x_opc t) ignored_exception_targets).
+    + apply (IH seen A R (e_end e + 1) done); auto.
+    + destruct (negb (e_lasti e) && negb (memN (x_line s) seen)).
+      * destruct (add_exception_block_step items A R b done e s t Hreal I Hb1 Hb2 Hs Ks Ht Kt)
+          as [A1 [R1 [E1 I1']]].
+        rewrite E1. cbn [bind].
+        destruct (IH (x_line s :: seen) A1 R1 (e_end e + 1) (done ++ [e]) I1' Hb3 Hk') as [A' [R' [b' [E2 I2']]]].
+        exists A', R', b'. split; [exact E2|]. rewrite <- app_assoc in I2'. exact I2'.
+      * apply (IH seen A R (e_end e + 1) done); auto.
+Qed.
+
+Lemma inv_init : forall items, sorted items -> inv items [] items 0 [].
+Proof.
+  intros items H. constructor; simpl; auto.
+  - intros h [].
+  - intros e [].
+Qed.
+
+Lemma wf_excb_spec : forall items entries, wf_excb items entries = true ->
+  sorted items /\ Forall real_item items /\ bounded_fromb 0 entries = true /\
+  forall e, In e entries -> entry_keys_ok items e.
+Proof.
+  intros items entries H. unfold wf_excb in H.
+  apply andb_prop in H. destruct H as [H H4]. apply andb_prop in H. destruct H as [H H3].
+  apply andb_prop in H. destruct H as [H1 H2].
+  split; [apply sorted_keysb_sorted; auto|]. split; [|split; auto].
+  - apply Forall_forall. intros x Hx. rewrite forallb_forall in H2. specialize (H2 x Hx).
+    apply N.eqb_eq in H2. exact H2.
+  - intros e He. rewrite forallb_forall in H3. specialize (H3 e He). apply andb_prop in H3.
+    destruct H3 as [A B]. unfold has_keyb in A, B. apply existsb_exists in A, B.
+    destruct A as [s [Hs Ks]], B as [t [Ht Kt]]. apply N.eqb_eq in Ks, Kt.
+    split; [exists s | exists t]; auto.
+Qed.
+
+(* everything at once *)
+Lemma add_setup_except_spec : forall items entries,
+  wf_excb items entries = true ->
+  exists A R b, add_setup_except entries items = Ok (A ++ R) /\ inv items A R b (kept_entries entries items).
+Proof.
+  intros items entries H. destruct (wf_excb_spec _ _ H) as [Hs [Hr [Hb Hk]]].
+  destruct (loop_inv items Hs Hr entries [] [] items 0 [] (inv_init items Hs) Hb Hk) as [A [R [b [E I]]]].
+  exists A, R, b. split; auto.
+Qed.
+
+Lemma inv_R_real : forall items A R b done, Forall real_item items -> inv items A R b done -> Forall real_item R.
+Proof.
+  intros items A R b done Hr I. eapply Forall_sub; [exact Hr|]. intros x Hx.
+  rewrite (i_real _ _ _ _ _ I). apply in_or_app. auto.
+Qed.
+
+(* ---- the statements used by Props/C16.v ---- *)
+
+Lemma exception_ops_total_lemma : forall items entries,
+  wf_excb items entries = true -> exists out, add_setup_except entries items = Ok out.
+Proof. intros items entries H. destruct (add_setup_except_spec _ _ H) as [A [R [b [E _]]]]. eauto. Qed.
+
+Lemma exception_ops_preserve_real_lemma : forall items entries out,
+  wf_excb items entries = true -> add_setup_except entries items = Ok out ->
+  filter (fun it => N.odd (x_key it)) out = items.
+Proof.
+  intros items entries out H E. destruct (add_setup_except_spec _ _ H) as [A [R [b [E' I]]]].
+  rewrite E in E'. inversion E'; subst out. destruct (wf_excb_spec _ _ H) as [_ [Hr _]].
+  change (filter kodd (A ++ R) = items). rewrite filter_app.
+  rewrite (filter_kodd_real R) by (eapply inv_R_real; eauto). symmetry. apply (i_real _ _ _ _ _ I).
+Qed.
+
+Lemma exception_ops_complete_lemma : forall items entries out,
+  wf_excb items entries = true -> add_setup_except entries items = Ok out ->
+  StronglySorted N.lt (map x_key out) /\
+  length (filter (fun it => N.even (x_key it)) out) = (2 * length (kept_entries entries items))%nat /\
+  forall e, In e (kept_entries entries items) ->
+    (exists l1 s l2,
+       out = l1 ++ mkX (key_of (e_start e) - 1) op_SETUP_EXCEPT_311 (x_line s) (Some (key_of (e_target e))) :: s :: l2 /\
+       In s items /\ x_key s = key_of (e_start e)) /\
+    (exists l1 lst l2,
+       out = l1 ++ lst :: mkX (x_key lst + 1) op_POP_BLOCK (x_line lst) None :: l2 /\
+       In lst items /\ x_key lst <= key_of (e_end e) /\
+       forall it, In it items -> x_key it <= key_of (e_end e) -> x_key it <= x_key lst).
+Proof.
+  intros items entries out H E. destruct (add_setup_except_spec _ _ H) as [A [R [b [E' I]]]].
+  rewrite E in E'. inversion E'; subst out. destruct (wf_excb_spec _ _ H) as [_ [Hr _]].
+  split; [apply (i_sorted _ _ _ _ _ I)|]. split.
+  - assert (G : forall l, filter (fun it => N.even (x_key it)) l = filter keven l).
+    { intros l. apply filter_ext. intros a. unfold keven, kodd. rewrite <- N.negb_odd. reflexivity. }
+    rewrite G, filter_app. rewrite (filter_keven_real R) by (eapply inv_R_real; eauto).
+    rewrite app_nil_r. apply (i_count _ _ _ _ _ I).
+  - intros e He. pose proof (entry_ok_app items A R e (i_done _ _ _ _ _ I e He)) as [S P]. split; auto.
+    destruct P as [l1 [lst [l2 [Eo [Hl [_ [K1 K2]]]]]]]. exists l1, lst, l2. auto.
+Qed.
+
+Lemma exception_ops_nested_lemma : forall items entries out,
+  wf_excb items entries = true -> add_setup_except entries items = Ok out ->
+  brk (map x_key out) false = true.
+Proof.
+  intros items entries out H E. destruct (add_setup_except_spec _ _ H) as [A [R [b [E' I]]]].
+  rewrite E in E'. inversion E'; subst out. destruct (wf_excb_spec _ _ H) as [_ [Hr _]].
+  rewrite map_app. fold (keys A). rewrite brk_app_closed by apply (i_brk _ _ _ _ _ I).
+  rewrite <- (app_nil_r (map x_key R)). fold (keys R). rewrite brk_app_real by (eapply inv_R_real; eauto).
+  reflexivity.
 Qed.
